@@ -2,7 +2,7 @@
 # Runs the repository's pinned test suite with the hook guard OFF and compares with BASELINE.json's stable_pass list.
 out=${1:-/verif/build/baseline.junit.xml}
 mkdir -p "$(dirname "$out")"
-cd /repo && env -u ACCELFORGE_VERIF /venv/bin/python -m pytest -ra -q -p no:cacheprovider --timeout=900 --continue-on-collection-errors --junitxml="$out" > "${out%.xml}.log" 2>&1
+cd ${BASE_REPO:-/repo} && env -u ACCELFORGE_VERIF /venv/bin/python -m pytest -ra -q -p no:cacheprovider --timeout=900 --continue-on-collection-errors --junitxml="$out" > "${out%.xml}.log" 2>&1
 /venv/bin/python - "$out" <<'PY'
 import json, sys, xml.etree.ElementTree as ET
 base = set(json.load(open('/root/.vp/BASELINE.json'))['stable_pass'])
